@@ -30,8 +30,14 @@ package mem
 //@   loop 0: backedge where = upd(where, addr, athead(len(addrs)))
 //@   loop 0: invariant fresh(addrs) && off(addrs) == 0
 //@   loop 0: invariant forall i in 0..len(addrs) :: (addrs[i] in s.data) && visited(addrs[i]) && where[addrs[i]] == i
+//@   label C03.SaveCheckpoint.complete.collect
 //@   loop 0: invariant forall a uint64 :: visited(a) ==> 0 <= where[a] && where[a] < len(addrs) && addrs[where[a]] == a
 //@   loop 1: invariant -1 <= rangeindex && rangeindex < len(addrs) && fresh(addrs)
+//@   label C03.SaveCheckpoint.deterministic.atloop
 //@   loop 1: invariant forall i in 0..len(addrs) - 1 :: addrs[i] < addrs[i+1]
+// ground instance of the invariant above (so that a broken order is refuted with a counterexample, not merely undecided)
+//@   label C03.SaveCheckpoint.deterministic.atloop.first2
+//@   loop 1: invariant len(addrs) >= 2 ==> addrs[0] < addrs[1]
 //@   loop 1: invariant forall i in 0..len(addrs) :: (addrs[i] in s.data)
+//@   label C03.SaveCheckpoint.complete.atloop
 //@   loop 1: invariant forall a uint64 :: (a in s.data) ==> 0 <= Slice_inv[where[a]] && Slice_inv[where[a]] < len(addrs) && addrs[Slice_inv[where[a]]] == a
